@@ -1672,36 +1672,51 @@ class Symx:
         return g
 
     def solve_index(self, kvs, guard, i):
-        """guard: And(Eq(k0, f0(i)), ...). Returns (guard on kvs not involving i, {i: expr}) or None."""
-        eqs = [guard] if isinstance(guard, sp.Equality) else (list(guard.args) if isinstance(guard, sp.And) else None)
+        """guard: And(Eq(k0, f0(i)), ..., other conditions). Returns (guard on kvs not involving i, {i: expr}) or None."""
+        eqs = list(guard.args) if isinstance(guard, sp.And) else ([guard] if guard not in (S.true, True) else None)
         if eqs is None:
-            if guard == S.true:
-                return S.true, {}
-            return None
+            return S.true, {}
         isub = None
         rest = []
         for eq in eqs:
-            if not isinstance(eq, sp.Equality):
-                return None
-            lhs, rhs = eq.lhs, eq.rhs
-            if lhs not in kvs:
-                lhs, rhs = rhs, lhs
-            if lhs not in kvs:
-                return None
-            if rhs.has(i) and isub is None:
-                sol = sp.solve(sp.Eq(lhs, rhs), i, dict=True)
-                if len(sol) != 1:
-                    return None
-                isub = {i: sol[0][i]}
-            else:
-                rest.append((lhs, rhs))
+            if isub is None and isinstance(eq, sp.Equality):
+                lhs, rhs = eq.lhs, eq.rhs
+                if lhs not in kvs:
+                    lhs, rhs = rhs, lhs
+                if lhs in kvs and rhs.has(i) and not rhs.has(*[k_ for k_ in kvs]):
+                    sol = sp.solve(sp.Eq(lhs, rhs), i, dict=True)
+                    if len(sol) != 1:
+                        return None
+                    isub = {i: sol[0][i]}
+                    continue
+            rest.append(eq)
         if isub is None:
             # index does not depend on i: last iteration wins; not summarised
             return None
         g = S.true
-        for lhs, rhs in rest:
-            g = sp.And(g, sp.Eq(lhs, rhs.subs(isub)))
+        for eq in rest:
+            e2 = eq.subs(isub)
+            if e2.has(i):
+                return None
+            g = sp.And(g, e2)
         return g, isub
+
+
+def call_arg_terms(prog, fn, pred):
+    """[(callee name, [argument terms])] for the calls of fn selected by pred, in source order, with every argument
+    evaluated symbolically in the state that reaches the end of fn (named temporaries, casts and aliases are seen
+    through).  Only for functions with a single non-exit path; Undecided otherwise."""
+    from .ir import calls as _calls
+    sx = Symx(prog, fn)
+    outs = [o for o in sx.run() if o.kind != 'exit']
+    if len(outs) != 1:
+        raise Undecided('%s has %d non-exit paths' % (fn.q, len(outs)))
+    st = outs[0].state
+    res = []
+    for c in _calls(fn, into_lambdas=False):
+        if pred(c):
+            res.append(((c.get('callee') or {}).get('name'), [sx.sym_or_name(a, st) for a in c.get('args', []) if a.get('k') != 'DefaultArg']))
+    return res
 
 
 def arr_as_tuple(v):
